@@ -134,10 +134,10 @@ func (t *transRule) OnInstr(x *Explorer, fr *Frame, in ssa.Instruction, st uint6
 }
 
 func checkC08(w *World, r *Report) {
-	r.Explanation = "Decides: (ST-TRANS) for every entry point (7 message handlers, the block hook) and every stored status value, the status writes reachable on a stored auction are constants and form only the transitions StandBy→Started, Started→Vesting, Started→Finished, Vesting→Finished, StandBy→Cancelled; nothing is written for Finished/Cancelled; a freshly constructed auction is written only StandBy or Started; (TIME-POL) by evaluating the code over all orderings of the compared instants: opening is reachable exactly for StartTime ≤ BlockTime (block hook and creation), any settlement effect exactly for last(EndTimes) ≤ BlockTime, a release transfer exactly for ReleaseTime ≤ BlockTime and not yet released, creation is committed exactly for EndTime ≥ BlockTime; (OPEN-GUARD) a Bid record is written by placement/modification only for status Started; (FINISH-LAST) Vesting→Finished is reachable only when the instalment being released is the last index of the list read from the store in key (= release time) order."
+	r.Explanation = "Decides: (ST-TRANS) for every entry point (7 message handlers, the block hook) and every stored status value, the status writes reachable on a stored auction are constants and form only the transitions StandBy→Started, Started→Vesting, Started→Finished, Vesting→Finished, StandBy→Cancelled; nothing is written for Finished/Cancelled; a freshly constructed auction is written only StandBy or Started; (TIME-POL) by evaluating the code over all orderings of the compared instants: opening is reachable exactly for StartTime ≤ BlockTime (block hook and creation; in the block hook also under every ordering of the current end time and the block time), any settlement effect exactly for last(EndTimes) ≤ BlockTime, a release transfer exactly for ReleaseTime ≤ BlockTime and not yet released, creation is committed exactly for EndTime ≥ BlockTime; (OPEN-GUARD) a Bid record is written by placement/modification only for status Started; (FINISH-LAST) Vesting→Finished is reachable only when the instalment being released is the last index of the list read from the store in key (= release time) order."
 	r.NotDecided = "the history-level statement (which block is the first at or after an instant) beyond comparator polarity and dispatch structure; skipped blocks are covered by the ≤ comparison being re-evaluated at each block."
 	r.Rule("ST-TRANS", "status writes are constants and allowed transitions", 10)
-	r.Rule("TIME-POL", "time comparisons have the stated accept tables", 6)
+	r.Rule("TIME-POL", "time comparisons have the stated accept tables", 7)
 	r.Rule("TIME-REL", "an instalment is released exactly when due and not yet released", 1)
 	r.Rule("OPEN-GUARD", "bids are committed only while the auction is Started", 2)
 	r.Rule("FINISH-LAST", "finishing needs the last instalment", 2)
@@ -256,6 +256,25 @@ func checkC08(w *World, r *Report) {
 		what: "the block hook writes Started on a StandBy auction exactly when StartTime ≤ BlockTime", commit: isStatusWriteTo(stStarted), commitTxt: "the Started status write",
 		cases: timeCases(startOfStored, leq, "StartTime"), atoms: []string{"pair0"},
 		consequence: "the auction opens one block late / early at the boundary instant"})
+	// the same table crossed with the ordering of the current end time: opening may depend on the start time only
+	// (a hook that also wants "not yet over" leaves an auction whose whole window falls between two blocks waiting for
+	// ever: it never opens, can still be cancelled after its start time, and never settles). Only the orderings that a
+	// stored auction can have (StartTime < every end time) are listed.
+	{
+		lastEndT := func(t *Term) bool { return t.Op == "last" && fieldBase(t.Args[0], "EndTimes") != nil }
+		var cs []guardCase
+		for _, oe := range [][2]int{{-1, -1}, {-1, 0}, {-1, 1}, {0, 1}, {1, 1}} {
+			os, oend := oe[0], oe[1]
+			cs = append(cs, guardCase{label: fmt.Sprintf("StartTime %s BlockTime, last(EndTimes) %s BlockTime", ordNames[os], ordNames[oend]), accept: os <= 0, build: func(c *caseRule) {
+				c.pairs = append(c.pairs, ordPair{ord: os, match: pairOf(startOfStored, isBlockTime)})
+				c.pairs = append(c.pairs, ordPair{ord: oend, match: pairOf(lastEndT, isBlockTime)})
+			}})
+		}
+		runGuard(w, r, tm, guardSpec{rule: "TIME-POL", id: "open:block-hook:any-end", root: bb, common: statusIs(stStandBy),
+			what: "the block hook writes Started on a StandBy auction when StartTime ≤ BlockTime whatever the ordering of its end time and the block time", commit: isStatusWriteTo(stStarted), commitTxt: "the Started status write",
+			cases: cs, atoms: []string{"pair0"},
+			consequence: "an auction whose start and end both fall between two consecutive blocks stays waiting for ever: it never opens or settles and its auctioneer can cancel it after the start time"})
+	}
 	for _, m := range []string{"CreateFixedPriceAuction", "CreateBatchAuction"} {
 		runGuard(w, r, tm, guardSpec{rule: "TIME-POL", id: "open:create:" + m, root: ms[m],
 			what: m + " stores the new auction as Started exactly when StartTime ≤ BlockTime", commit: isStatusWriteTo(stStarted), commitTxt: "the Started status write",
